@@ -444,6 +444,15 @@ def affineIn (nv : Nat) : Fn → Bool
   | .cos a => freeOf nv a
   | .pow a n => freeOf nv a || n == 0
 
+/-- `Σ_j coefs[j] · var (lo + j)` as a tree -/
+def lincomb (lo : Nat) : List Fn → Fn
+  | [] => zero
+  | c :: cs => .add (.mul c (.var lo)) (lincomb (lo + 1) cs)
+
+/-- one row of a linear time-variant system written as an `NLS`: `Σ_j a_j(t) x_j + Σ_j b_j(t) u_j + c(t)` (`nx` state
+entries; the coefficient trees `a_j`, `b_j`, `c` mention the time variable only) -/
+def affRow (nx : Nat) (a b : List Fn) (c : Fn) : Fn := .add (.add (lincomb 0 a) (lincomb nx b)) c
+
 end Fn
 
 /-! ### explicit bounds: value, first-order part, second-order remainder
